@@ -145,6 +145,17 @@ def run(rep, tier, seed, model_ok=True, effort=1):
                     files = sorted(l.split("|")[0].strip() for l in stat.splitlines() if "|" in l)
                     if files != ["bumpver.toml", "zz_version.txt"]:
                         rep.violation("the bump commit contains other files than the configured ones: %s" % files, input=inp, **{"class": "swept-in"})
+    # untracked files that merely share a name prefix with a pattern file (README next to README.md) carry no pattern and never block
+    for extra_name in ("a", "a.t", "bumpver", "a.txt.orig"):
+        prj = project.TempProject("MAJOR.MINOR.PATCH", "1.2.3", files={"a.txt": ["ver = {version}"]}, commit=True, tag=False, push=False, vcs="git")
+        with prj:
+            open(prj.path(extra_name), "w").write("scratch\n")
+            status_text = prj.git("status", "--porcelain")
+            code, out, logs, exc = prj.run(impl, ["update", "--patch", "--no-fetch", "--commit"])
+            rep.case(("untracked-prefix-name", extra_name), nontrivial=True)
+            if code != 0:
+                rep.violation("update was blocked although only %s (untracked, carries no pattern) is dirty" % extra_name,
+                              input=dict(status="untracked", file=extra_name, allow_dirty=False, git_status=status_text, exit=code, logs=logs[-3:]), **{"class": "blocked-wrongly"})
     # with a pre-commit hook configured, --allow-dirty still keeps an unrelated modified file out of the bump commit
     prj = project.TempProject("MAJOR.MINOR.PATCH", "1.2.3", files={"a.txt": ["ver = {version}"]}, contents={"other.txt": "unrelated\n"},
                               commit=True, tag=False, push=False, vcs="git", hooks={"pre": "ok"})
@@ -183,6 +194,34 @@ def run(rep, tier, seed, model_ok=True, effort=1):
             if "uncommitted note" in shown:
                 rep.violation("an uncommitted edit of a pattern file was swept into the bump commit (project in a sub-directory of the repository)",
                               input=dict(cwd="services/api", args=["update", "--patch", "--no-fetch"] + extra, exit=code, git_status=g("status", "--porcelain")), **{"class": "dirty-not-blocked"})
+                break
+            n0 = n1
+    finally:
+        shutil.rmtree(root, ignore_errors=True)
+    # a pattern file whose NAME is not valid UTF-8 (latin-1 bytes, reached through a glob entry), git printing names raw (core.quotepath=false):
+    # its uncommitted edit never ends up in a bump commit, with or without --allow-dirty
+    root = tempfile.mkdtemp(prefix="bvraw_", dir=project.SCRATCH)
+    try:
+        os.makedirs(os.path.join(root, "docs"))
+        open(os.path.join(root, "bumpver.toml"), "w").write('[bumpver]\ncurrent_version = "1.2.3"\nversion_pattern = "MAJOR.MINOR.PATCH"\ncommit = true\ntag = false\npush = false\n\n'
+                                                             '[bumpver.file_patterns]\n"bumpver.toml" = [\'current_version = "{version}"\']\n"docs/*.txt" = ["ver = {version}"]\n')
+        raw_name = os.path.join(os.fsencode(root), b"docs", b"caf\xe9.txt")
+        open(raw_name, "wb").write(b"ver = 1.2.3\n")
+        def g(*a):
+            return subprocess.run(["git"] + list(a), cwd=root, capture_output=True).stdout.decode("utf-8", "replace")
+        g("init", "-q", "-b", "main"); g("config", "user.email", "t@example.com"); g("config", "user.name", "t"); g("config", "commit.gpgsign", "false")
+        g("config", "core.quotepath", "false")
+        g("add", "-A"); g("commit", "-q", "-m", "initial")
+        open(raw_name, "ab").write(b"uncommitted note\n")
+        n0 = len(g("log", "--oneline").splitlines())
+        for extra in (["--allow-dirty"], []):
+            code, out, exc = impl.run_cli(["update", "--patch", "--no-fetch"] + extra, cwd=root)
+            n1 = len(g("log", "--oneline").splitlines())
+            shown = g("show", "HEAD") if n1 > n0 else ""
+            rep.case(("non-utf8-file-name", tuple(extra)), nontrivial=True)
+            if "uncommitted note" in shown:
+                rep.violation("an uncommitted edit of a pattern file was swept into the bump commit (file name not valid UTF-8, core.quotepath=false)",
+                              input=dict(file="docs/caf\\xe9.txt", entry="docs/*.txt", args=["update", "--patch", "--no-fetch"] + extra, exit=code, git_status=g("status", "--porcelain")), **{"class": "dirty-not-blocked"})
                 break
             n0 = n1
     finally:
